@@ -2,8 +2,36 @@ import FimVerif.Drivers.Proto
 import FimVerif.Model.Cap
 open Lean FimVerif.Proto FimVerif.Cap
 
+def parseStmt (j : Json) : Option Stmt :=
+  match j with
+  | .arr #[.str "bin", .bool isAdd, d, x, y] =>
+    match d.getNat?.toOption, x.getNat?.toOption, y.getNat?.toOption with
+    | some d, some x, some y => some (.bin isAdd d x y)
+    | _, _, _ => none
+  | .arr #[.str "aug", .bool isAdd, x, y] =>
+    match x.getNat?.toOption, y.getNat?.toOption with
+    | some x, some y => some (.aug isAdd x y)
+    | _, _ => none
+  | .arr #[.str "free", d, t, a] =>
+    match d.getNat?.toOption, t.getNat?.toOption, a.getNat?.toOption with
+    | some d, some t, some a => some (.free d t a)
+    | _, _, _ => none
+  | .arr #[.str "alias", d, x] =>
+    match d.getNat?.toOption, x.getNat?.toOption with
+    | some d, some x => some (.alias d x)
+    | _, _ => none
+  | _ => none
+
 def handle (j : Json) : Json :=
   match j with
+  | .arr #[.str "prog", .arr objs, .arr stmts] =>
+    match objs.toList.mapM getInts, stmts.toList.mapM parseStmt with
+    | some os, some ps =>
+      let s0 : St := { heap := os.map ofList, env := List.range os.length }
+      let s := FimVerif.Cap.run ps s0
+      ok (Json.arr #[Json.arr (s.env.map (fun (n : Nat) => Json.num (JsonNumber.fromNat n))).toArray,
+                     Json.arr (s.heap.map (fun c => ofInts (toList c))).toArray])
+    | _, _ => err "bad-args"
   | .arr #[.str op, x] =>
     match getInts x with
     | some xs =>
